@@ -905,6 +905,25 @@ class Comparer:
         site = self.site
         kind = xa[0]
         body_a, body_b = (xa[2], xb[2]) if kind == 'while' else (xa[3], xb[3])
+        pre_iter = None
+        restore = None
+        if kind == 'for':
+            # the iterable of a `for` is evaluated once, in the state before the loop
+            try:
+                pre_iter = (C.canon_expr(xa[2], ea), C.canon_expr(xb[2], eb))
+            except CanonError:
+                pre_iter = None
+            # loop variables that are local to their loop (not read afterwards) are the same variable whatever
+            # they are called: side b's is renamed to side a's for the extent of the loop
+            if isinstance(xa[1], ast.Name) and isinstance(xb[1], ast.Name):
+                na, raw_b = self.a.cn(xa[1].id), xb[1].id
+                if self.b.cn(raw_b) != na and raw_b not in rest_b and xa[1].id not in rest_a:
+                    others_b = {self.b.cn(n.id) for n in ast.walk(self.b.fi.node) if isinstance(n, ast.Name) and n.id != raw_b}
+                    if na not in others_b:
+                        restore = (raw_b, self.b.rename.get(raw_b), eb.rename.get(raw_b) if eb.rename is not self.b.rename else None)
+                        self.b.rename[raw_b] = na
+                        if eb.rename is not self.b.rename:
+                            eb.rename[raw_b] = na
         wa = {self.a.cn(n) for n in assigned_names([xa])}
         wb = {self.b.cn(n) for n in assigned_names([xb])}
         union = wa | wb
@@ -923,7 +942,7 @@ class Comparer:
                           C.cond_set_form(self.norm(ca, fa)), C.cond_set_form(self.norm(cb, fb)), ctx)
             label = f"while {self._short(xa[1])}"
         else:
-            ia_, ib_ = C.canon_expr(xa[2], ea), C.canon_expr(xb[2], eb)
+            ia_, ib_ = pre_iter if pre_iter is not None else (C.canon_expr(xa[2], ea), C.canon_expr(xb[2], eb))
             if not self.eq(ia_, ib_, fa, fb):
                 self.mism('condition', 'loop range differs', xa[2], xb[2], self.norm(ia_, fa), self.norm(ib_, fb), ctx)
             ta = {self.a.cn(n) for n in assigned_names([('for', xa[1], None, [], None)])}
@@ -945,6 +964,17 @@ class Comparer:
             asg_a[n] = xa[-1]
         for n in wb:
             asg_b[n] = xb[-1]
+        if restore is not None:
+            raw_b, old_side, old_env = restore
+            if old_side is None:
+                self.b.rename.pop(raw_b, None)
+            else:
+                self.b.rename[raw_b] = old_side
+            if eb.rename is not self.b.rename:
+                if old_env is None:
+                    eb.rename.pop(raw_b, None)
+                else:
+                    eb.rename[raw_b] = old_env
 
 
 # ----------------------------------------------------------------------------
